@@ -92,20 +92,7 @@ func LoadWorld(repo string, patterns []string, verifDir string) (*World, error) 
 			}
 		}
 	}
-	// contracts: /repo/<pkg>/contracts_verif.go, then trusted library specs
-	for path, sp := range w.SSAPkgs {
-		if !strings.HasPrefix(path, ModulePath) {
-			continue
-		}
-		dir := filepath.Join(repo, strings.TrimPrefix(strings.TrimPrefix(path, ModulePath), "/"))
-		_ = sp
-		f := filepath.Join(dir, "contracts_verif.go")
-		if _, err := os.Stat(f); err == nil {
-			if err := w.Contracts.ParseContractFile(f, path); err != nil {
-				return nil, err
-			}
-		}
-	}
+	// contracts: trusted library specs first (they define shared groups), then /repo/<pkg>/contracts_verif.go
 	specs, _ := filepath.Glob(filepath.Join(verifDir, "lib", "trusted", "*.spec"))
 	sort.Strings(specs)
 	for _, f := range specs {
@@ -113,11 +100,28 @@ func LoadWorld(repo string, patterns []string, verifDir string) (*World, error) 
 			return nil, err
 		}
 	}
+	var paths []string
+	for path := range w.SSAPkgs {
+		if strings.HasPrefix(path, ModulePath) {
+			paths = append(paths, path)
+		}
+	}
+	sort.Strings(paths)
+	for _, path := range paths {
+		dir := filepath.Join(repo, strings.TrimPrefix(strings.TrimPrefix(path, ModulePath), "/"))
+		f := filepath.Join(dir, "contracts_verif.go")
+		if _, err := os.Stat(f); err == nil {
+			if err := w.Contracts.ParseContractFile(f, path); err != nil {
+				return nil, err
+			}
+		}
+	}
 	for _, fc := range w.Contracts.Funcs {
 		if fc.Pkg == "trusted" {
 			fc.Trusted = true
 		}
 	}
+	w.Contracts.finalize()
 	w.loadTables(filepath.Join(verifDir, "lib", "pure.txt"), w.pure)
 	w.loadTables(filepath.Join(verifDir, "lib", "noheap.txt"), w.noHeap)
 	return w, nil
